@@ -63,14 +63,16 @@ from harness.lib import op
 
 ID = "C12"
 LEAN = {
-    "modules": ["GfaProofs.Bridge.Cigar", "GfaProofs.Bridge.Geometry", "GfaProofs.C12", "GfaProofs.Lemmas.CigarText"],
-    "support": ["GfaProofs.Lemmas.Digits", "GfaModel.Cigar", "GfaModel.CigarText"],
+    "modules": ["GfaProofs.Bridge.Cigar", "GfaProofs.Bridge.Geometry", "GfaProofs.C12", "GfaProofs.C12Orient", "GfaProofs.Lemmas.CigarText"],
+    "support": ["GfaProofs.Lemmas.Digits", "GfaModel.Cigar", "GfaModel.CigarText", "GfaModel.GraphObs"],
     "theorems": [
         "Gfa.C12.compl_compl", "Gfa.C12.refLen_compl", "Gfa.C12.queryLen_compl", "Gfa.C12.compl_length",
         "Gfa.C12.compl_lens", "Gfa.C12.link_compl_compl", "Gfa.C12.isComplement_compl", "Gfa.C12.isComplement_symm",
         "Gfa.C12.isEql_symm", "Gfa.C12.isEql_refl", "Gfa.C12.isEql_trans", "Gfa.C12.isSame_iff",
         "Gfa.C12.isEql_iff", "Gfa.C12.canonical_or", "Gfa.C12.canonical_xor", "Gfa.C12.canon_canonical",
         "Gfa.C12.canon_eql", "Gfa.C12.compatible_either_form",
+        "Gfa.C12.orient_flips", "Gfa.C12.orient_both_ways", "Gfa.C12.compl_direct_eq", "Gfa.C12.compl_compl_eq",
+        "Gfa.C03.pathLinks_perm",
         "Gfa.Bridge.Cigar.flip_table", "Gfa.Bridge.Cigar.len_table", "Gfa.Bridge.Cigar.compl_reverses",
         "Gfa.Bridge.Cigar.compl_pure", "Gfa.Bridge.Cigar.codes_complete", "Gfa.Bridge.Geometry.invert_table",
         "Gfa.Bridge.Geometry.link_ends",
@@ -90,8 +92,13 @@ RULE = ("random links over a 5-name pool (self-links, hairpins), CIGARs of 0-4 o
         "the complement of every stored link is added and a path over every stored link in each direction. "
         "Non-trivial: overlap specified with >=2 operations or a self-link, or a path or multi case.")
 ASSUMPTIONS = ["tags take no part in link identity (not modelled)",
-               "the add-complement and path clauses are decided on the real library by the oracle and by the graph-model "
-               "correspondence of C02/C03; the theorems here cover the algebra"]
+               "the add-complement clause is decided on the real library by the oracle and by the graph-model correspondence of "
+               "C02/C03; path resolution: the link every step is bound to and its orientation flag (path.links) are part of the "
+               "complete observation compared with the model after every step (GraphObs.pathLinks / linkOrient); proved: the flag "
+               "flips with the stored form of the link for a step matched one way and is '+' in either form for a step matched "
+               "both ways (orient_flips, orient_both_ways), and path.links does not depend on the order of the stored lines when "
+               "the steps resolve uniquely (C03.pathLinks_perm); with several stored links fitting one step the library binds "
+               "the first one found, which the model mirrors (first in arrival order) and the oracle checks for consistency"]
 TRUSTED = ["GfaModel/Cigar.lean is hand-written; tied by Bridge.Cigar (T2 tables) and by the correspondence"]
 
 NAMES = ["A", "B", "C", "a", "10"]
